@@ -26,7 +26,7 @@ def corpus(pid):
     for meta in sorted(glob.glob(os.path.join(VERIF, "seeded", "*", "meta.json"))):
         d = os.path.dirname(meta)
         st = index.get(os.path.basename(d), {}).get("status")
-        if st != "detected":
+        if not str(st).startswith("detected"):
             if (index.get(os.path.basename(d), {}).get("property") or os.path.basename(d)[:3]) == pid:
                 BLIND.setdefault(pid, []).append("seeded/" + os.path.basename(d) + (" (not yet triaged)" if st is None else ""))
             continue
